@@ -224,7 +224,12 @@ def run_mode_case(R: Recorder, T: Template, d: Path, mode: str, how: str, end: s
                 ("create_patch", rec.create_patch),
                 ("commit_patch", rec.commit_patch),
                 ("discard_patch", rec.discard_patch),
+                # the same through the record a node hands out as .file (h5py: node.file is the file the node lives in, same mode)
+                ("node.file.create_patch", lambda: rec["/"].file.create_patch()),
+                ("node.file.commit_patch", lambda: rec["/"].file.commit_patch()),
+                ("node.file.discard_patch", lambda: rec["/"].file.discard_patch()),
             ]
+            R.check(rec["/"].file.mode == "r", f"{sig}:r-node-file-mode", "node.file of a record opened 'r' does not report mode 'r'", case, FNS)
             firstds = LC.first_dataset_path(HISTORIES[T.hidx][:1])
             if firstds and firstds.split("/")[0] in (view.get("ch") or {}):
                 top = firstds.split("/")[0]
